@@ -118,6 +118,14 @@ type cfg struct {
 	pair      bool // state-cookie manipulation x pkce-cookie manipulation (full product) instead of one manipulation
 	rich      bool // thorough: POST form callbacks, missing code, partially different keys, empty value
 	scopes    []string // configured scopes (nil: the default list with openid)
+	// configured identifiers (ident_test.go): "" = the usual constant
+	redirect string // redirect URI exactly as handed to the constructor
+	noRedir  bool   // the empty redirect URI is configured
+	client   string // client id exactly as handed to the constructor
+	stateFl  string // flavour of the values the state function returns (stateOf)
+	auth     string // "" (auto detect) | header | params: rp.WithAuthStyle
+	revOpts  bool   // the options are handed to the constructor in reverse order
+	both     string // with pkce: "cookie+pkce" | "pkce+cookie": WithCookieHandler and WithPKCE both given (one handler), in that order
 	// related-keys parts (relkeys_test.go): the cookie handler's keys as configured, the related foreign key pairs
 	rel           bool
 	hashK, blockK []byte
@@ -131,6 +139,40 @@ func (p *cfg) scopeList() []string {
 		return p.scopes
 	}
 	return scopes
+}
+
+// redirectURI / clientID are the identifiers the RP is configured with, byte for byte.
+func (p *cfg) redirectURI() string {
+	if p.noRedir {
+		return ""
+	}
+	if p.redirect != "" {
+		return p.redirect
+	}
+	return redirectURI
+}
+func (p *cfg) clientID() string {
+	if p.client != "" {
+		return p.client
+	}
+	return clientID
+}
+
+// stateOf is the k-th value of the state function of this configuration.
+func (p *cfg) stateOf(k int) string {
+	switch p.stateFl {
+	case "unicode":
+		return fmt.Sprintf("Zustand-%d-\u00fc\u2713-\u72b6\u614b", k)
+	case "ws":
+		return fmt.Sprintf(" \tst %d  ", k)
+	case "long":
+		return fmt.Sprintf("L%d-", k) + strings.Repeat("0123456789abcdef", 20)
+	case "urlish":
+		return fmt.Sprintf("https://rp.example/return?to=/a&n=%d#frag@x:y", k)
+	case "quotes":
+		return fmt.Sprintf("a;b\"c'd\\e,<%d>{}|^`", k)
+	}
+	return stateOf(k)
 }
 
 func (p *cfg) hashKey() []byte {
@@ -185,7 +227,7 @@ type cbOp struct {
 	sc string // state-cookie manipulation
 	pc string // pkce-cookie manipulation
 	pv string // ok | refuse
-	m  string // get | post
+	m  string // get | post (form body) | postq (POST, parameters in the query) | put (form body) | head (query) | postdup (body and query)
 }
 
 func (o cbOp) String() string {
@@ -219,13 +261,28 @@ func parseCb(op string) (o cbOp, ok bool) {
 	return o, true
 }
 
+// startOps: the login request as the browser can be made to send it. The authorization URL must carry the
+// configured values and the state of the cookie whatever the login request itself carries.
+//
+//	start        GET /login
+//	start:getq   GET /login?state=..&client_id=..&redirect_uri=..&scope=..&code_challenge=.. (attacker-made link)
+//	start:post   POST /login with those parameters in a form body (auto-submitted form)
+//	start:head   HEAD /login?... (thorough)
+func (p *cfg) startOps() []string {
+	ops := []string{"start", "start:getq", "start:post"}
+	if p.rich {
+		ops = append(ops, "start:head")
+	}
+	return ops
+}
+
 func (p *cfg) ops(s S) []string {
 	if p.rel {
 		return p.relOps(s)
 	}
 	var ops []string
 	if s.N < p.maxStarts {
-		ops = append(ops, "start")
+		ops = append(ops, p.startOps()...)
 	}
 	// q.state
 	var qss []string
@@ -276,17 +333,19 @@ func (p *cfg) ops(s S) []string {
 		}
 	}
 	kinds := []string{"code", "error", "codecv"}
-	ms := []string{"get"}
+	// HTTP method / parameter channel of the callback: GET with query, POST with form body, POST with query
+	// (thorough: PUT with form body, HEAD with query, POST with the parameters in body and query alike)
+	ms := []string{"get", "post", "postq"}
 	if p.rich {
 		kinds = append(kinds, "nocode")
-		ms = append(ms, "post")
+		ms = append(ms, "put", "head", "postdup")
 	}
 	for _, qs := range qss {
 		for _, k := range kinds {
 			for _, m := range ms {
 				for _, sc := range scs {
 					for _, pc := range pcs {
-						if sc != "asis" && pc != "asis" && (!p.pair || sc == "swap" || m == "post") {
+						if sc != "asis" && pc != "asis" && (!p.pair || sc == "swap" || m != "get") {
 							continue // one jar manipulation per callback
 						}
 						ops = append(ops, cbOp{qs, k, sc, pc, "ok", m}.String())
@@ -317,19 +376,20 @@ type provider struct {
 	nTok   int
 }
 
-var idTokens sync.Map // unix second -> signed id token (the payload only depends on the fake clock)
+var idTokens sync.Map // (unix second, client id) -> signed id token (the payload only depends on the fake clock and the audience)
 
-func idToken() string {
+func idToken(aud string) string {
 	now := time.Now()
-	if v, ok := idTokens.Load(now.Unix()); ok {
+	key := strconv.FormatInt(now.Unix(), 10) + "|" + aud
+	if v, ok := idTokens.Load(key); ok {
 		return v.(string)
 	}
 	payload, _ := json.Marshal(map[string]any{
-		"iss": issuer, "sub": "user-1", "aud": []string{clientID},
+		"iss": issuer, "sub": "user-1", "aud": []string{aud},
 		"exp": now.Add(time.Hour).Unix(), "iat": now.Unix(),
 	})
 	tok := keys.SignCompact(keys.Get("p256b"), jose.ES256, opKid, payload)
-	idTokens.Store(now.Unix(), tok)
+	idTokens.Store(key, tok)
 	return tok
 }
 
@@ -371,7 +431,7 @@ func (pr *provider) RoundTrip(req *http.Request) (*http.Response, error) {
 		}
 		out := map[string]any{"access_token": "at-" + strconv.Itoa(pr.nTok), "token_type": "Bearer", "expires_in": 3600}
 		if pr.p.oidc {
-			out["id_token"] = idToken()
+			out["id_token"] = idToken(pr.p.clientID())
 		}
 		return jsonResp(req, 200, out), nil
 	}
@@ -429,7 +489,11 @@ func newWorld(p *cfg) (*world, error) {
 				httphelper.WithSameSite(http.SameSiteStrictMode), httphelper.WithDomain("rp.example")}
 		}
 		ch := httphelper.NewCookieHandler(p.hashKey(), p.blockKey(), ckOpts...)
-		if p.pkce {
+		if p.pkce && p.both == "cookie+pkce" {
+			opts = append(opts, rp.WithCookieHandler(ch), rp.WithPKCE(ch))
+		} else if p.pkce && p.both == "pkce+cookie" {
+			opts = append(opts, rp.WithPKCE(ch), rp.WithCookieHandler(ch))
+		} else if p.pkce {
 			opts = append(opts, rp.WithPKCE(ch))
 		} else {
 			opts = append(opts, rp.WithCookieHandler(ch))
@@ -438,13 +502,24 @@ func newWorld(p *cfg) (*world, error) {
 	if p.jwt != "" {
 		opts = append(opts, rp.WithJWTProfile(rp.SignerFromKeyAndKeyID(keys.Get(p.jwt).PEM, clientKid)))
 	}
-	var err error
+	switch p.auth {
+	case "header":
+		opts = append(opts, rp.WithAuthStyle(oauth2.AuthStyleInHeader))
+	case "params":
+		opts = append(opts, rp.WithAuthStyle(oauth2.AuthStyleInParams))
+	}
 	if p.oidc {
 		opts = append(opts, rp.WithVerifierOpts(rp.WithSupportedSigningAlgorithms("ES256")))
-		w.party, err = rp.NewRelyingPartyOIDC(context.Background(), issuer, clientID, clientSecret, redirectURI, slices.Clone(p.scopeList()), opts...)
+	}
+	if p.revOpts {
+		slices.Reverse(opts)
+	}
+	var err error
+	if p.oidc {
+		w.party, err = rp.NewRelyingPartyOIDC(context.Background(), issuer, p.clientID(), clientSecret, p.redirectURI(), slices.Clone(p.scopeList()), opts...)
 	} else {
 		w.party, err = rp.NewRelyingPartyOAuth(&oauth2.Config{
-			ClientID: clientID, ClientSecret: clientSecret, RedirectURL: redirectURI, Scopes: slices.Clone(p.scopeList()),
+			ClientID: p.clientID(), ClientSecret: clientSecret, RedirectURL: p.redirectURI(), Scopes: slices.Clone(p.scopeList()),
 			Endpoint: oauth2.Endpoint{AuthURL: authURL, TokenURL: tokenURL},
 		}, opts...)
 	}
@@ -458,8 +533,8 @@ func newWorld(p *cfg) (*world, error) {
 	}
 	w.startH = rp.AuthURLHandler(func() string {
 		w.ctr++
-		w.fnOut = append(w.fnOut, stateOf(w.ctr))
-		return stateOf(w.ctr)
+		w.fnOut = append(w.fnOut, p.stateOf(w.ctr))
+		return p.stateOf(w.ctr)
 	}, w.party, urlParams...)
 	w.cbH = rp.CodeExchangeHandler(func(rw http.ResponseWriter, r *http.Request, tokens *oidc.Tokens[*oidc.IDTokenClaims], state string, _ rp.RelyingParty) {
 		c := cbCall{state: state, nilTok: tokens == nil || tokens.Token == nil}
@@ -571,8 +646,27 @@ func mint(hash, block []byte, name, value string) string {
 // ---------------------------------------------------------------------------
 // start()
 
-func (w *world) start(judge bool) (engine.Result, string) {
-	rec, pan := w.serve(w.startH, "GET", loginURL, nil, w.jarCookies())
+// loginParams is what an attacker-made login request carries: every parameter of the authorization request.
+func loginParams() url.Values {
+	return url.Values{"state": {"attacker-state"}, "client_id": {"attacker-client"}, "redirect_uri": {"https://attacker.example/cb"},
+		"scope": {"openid attacker"}, "response_type": {"token"}, "code_challenge": {s256(forgedVer)}, "code_challenge_method": {"plain"}}
+}
+
+func (w *world) start(variant string, judge bool) (engine.Result, string) {
+	var rec *httptest.ResponseRecorder
+	var pan string
+	switch variant {
+	case "start":
+		rec, pan = w.serve(w.startH, "GET", loginURL, nil, w.jarCookies())
+	case "start:getq":
+		rec, pan = w.serve(w.startH, "GET", loginURL+"?"+loginParams().Encode(), nil, w.jarCookies())
+	case "start:head":
+		rec, pan = w.serve(w.startH, "HEAD", loginURL+"?"+loginParams().Encode(), nil, w.jarCookies())
+	case "start:post":
+		rec, pan = w.serve(w.startH, "POST", loginURL, loginParams(), w.jarCookies())
+	default:
+		return engine.Result{Rule: "internal", Outcome: "unknown start variant " + variant}, ""
+	}
 	cs := w.absorb(rec)
 	var sc, pc string
 	for _, c := range cs {
@@ -613,6 +707,10 @@ func (w *world) start(judge bool) (engine.Result, string) {
 	if pan != "" {
 		return engine.Bad(rule, "panic", "C17/start-refused/start/panic", pan), "start"
 	}
+	if (variant == "start:post" || variant == "start:head") && (rec.Code < 300 || rec.Code >= 400) && sc == "" && pc == "" && len(w.prov.log) == 0 {
+		// the statement does not say that a login request other than GET must be served: nothing was handed out
+		return engine.OK("start/non-get-refused/either", "refused"), "start"
+	}
 	if rec.Code < 300 || rec.Code >= 400 || loc == nil || len(w.unauth) > 0 {
 		return bad("start-refused", "no-redirect", fmt.Sprintf("status %d unauthorized=%v", rec.Code, w.unauth))
 	}
@@ -622,9 +720,13 @@ func (w *world) start(judge bool) (engine.Result, string) {
 	if got := loc.Scheme + "://" + loc.Host + loc.Path; got != authURL {
 		return bad("authurl", "endpoint", got)
 	}
-	want := map[string]string{"client_id": clientID, "redirect_uri": redirectURI, "scope": strings.Join(w.p.scopeList(), " "),
+	// compared after query decoding, byte for byte, with what the RP was configured with
+	want := map[string]string{"client_id": w.p.clientID(), "redirect_uri": w.p.redirectURI(), "scope": strings.Join(w.p.scopeList(), " "),
 		"state": st, "response_type": "code"}
 	for _, name := range []string{"client_id", "redirect_uri", "scope", "state", "response_type"} {
+		if want[name] == "" && name != "state" && (len(q[name]) == 0 || (len(q[name]) == 1 && q.Get(name) == "")) {
+			continue // nothing configured (empty redirect URI / empty scope list): parameter absent or empty
+		}
 		if len(q[name]) != 1 || q.Get(name) != want[name] {
 			return bad("authurl", name, fmt.Sprintf("%s=%q want %q", name, q[name], want[name]))
 		}
@@ -807,10 +909,22 @@ func (w *world) callback(o cbOp, judge bool) (engine.Result, string) {
 	w.prov.refuse = o.pv == "refuse"
 	var rec *httptest.ResponseRecorder
 	var pan string
-	if o.m == "post" {
-		rec, pan = w.serve(w.cbH, "POST", redirectURI, q, cookies)
-	} else {
+	// the request always arrives at the RP's callback route; the configured redirect URI may be any string
+	switch o.m {
+	case "get":
 		rec, pan = w.serve(w.cbH, "GET", redirectURI+"?"+q.Encode(), nil, cookies)
+	case "head":
+		rec, pan = w.serve(w.cbH, "HEAD", redirectURI+"?"+q.Encode(), nil, cookies)
+	case "post":
+		rec, pan = w.serve(w.cbH, "POST", redirectURI, q, cookies)
+	case "put":
+		rec, pan = w.serve(w.cbH, "PUT", redirectURI, q, cookies)
+	case "postq":
+		rec, pan = w.serve(w.cbH, "POST", redirectURI+"?"+q.Encode(), nil, cookies)
+	case "postdup":
+		rec, pan = w.serve(w.cbH, "POST", redirectURI+"?"+q.Encode(), q, cookies)
+	default:
+		return engine.Result{Rule: "internal", Outcome: "unknown method " + o.m}, ""
 	}
 	w.prov.refuse = false
 	w.absorb(rec)
@@ -860,7 +974,7 @@ func (w *world) stateK(k int) string {
 	if k >= 1 && k <= len(w.states) && w.states[k-1] != "" {
 		return w.states[k-1]
 	}
-	return stateOf(k)
+	return w.p.stateOf(k)
 }
 
 func flipAt(s string, i int) string {
@@ -965,6 +1079,11 @@ func (w *world) judgeCallback(o cbOp, sProv, pProv prov, match bool, qstate, cod
 				return engine.Bad("match/token-request", outcome, "C17/client-assertion/callback/"+why, detail())
 			}
 		}
+		// the exchange is made for the configured client and redirect URI: whatever of them the request names
+		// is named exactly as configured (after decoding, byte for byte)
+		if why := w.checkIdentity(r); why != "" {
+			return engine.Bad("match/token-request", outcome, "C17/token-request/callback/"+why, detail())
+		}
 	}
 	if accepted {
 		if len(w.cbs) != 1 || w.cbs[0].state != w.stateK(sProv.k) {
@@ -972,6 +1091,10 @@ func (w *world) judgeCallback(o cbOp, sProv, pProv prov, match bool, qstate, cod
 		}
 	}
 	natural := o.sc == "asis" && (!p.pkce || o.pc == "asis")
+	if natural && o.k == "code" && o.pv == "ok" && o.m != "get" && o.m != "post" {
+		// the statement does not say over which methods / parameter channels a callback must be readable
+		return engine.OK("match/unusual-method/either", outcome)
+	}
 	if natural && o.k == "code" && o.pv == "ok" {
 		// non-vacuity baseline: the browser presents what it holds, the query carries the state of that
 		// cookie, the provider answers: the code must be exchanged and the application called.
@@ -1007,6 +1130,36 @@ func (w *world) judgeCallback(o cbOp, sProv, pProv prov, match bool, qstate, cod
 	return engine.OK(rule, outcome)
 }
 
+// checkIdentity: a token request names the configured client, redirect URI (and scopes, if it names any).
+// Absent fields are not judged; the client id of a Basic header may be form-encoded (RFC 6749 2.3.1) or raw.
+func (w *world) checkIdentity(r preq) string {
+	one := func(name, want string) bool {
+		v, ok := r.Form[name]
+		return !ok || (len(v) == 1 && v[0] == want)
+	}
+	if !one("redirect_uri", w.p.redirectURI()) {
+		return "redirect_uri"
+	}
+	if !one("client_id", w.p.clientID()) {
+		return "client_id"
+	}
+	if !one("scope", strings.Join(w.p.scopeList(), " ")) {
+		return "scope"
+	}
+	if b64, ok := strings.CutPrefix(r.Auth, "Basic "); ok {
+		raw, err := base64.StdEncoding.DecodeString(b64)
+		if err != nil {
+			return "client_id-basic"
+		}
+		user, _, _ := strings.Cut(string(raw), ":")
+		dec, derr := url.QueryUnescape(user)
+		if user != w.p.clientID() && (derr != nil || dec != w.p.clientID()) {
+			return "client_id-basic"
+		}
+	}
+	return ""
+}
+
 // checkAssertion: client_assertion verifies under the client key, names the client, has the issuer in aud.
 func (w *world) checkAssertion(f url.Values) string {
 	a := f.Get("client_assertion")
@@ -1034,7 +1187,7 @@ func (w *world) checkAssertion(f url.Values) string {
 	if err := json.Unmarshal(payload, &c); err != nil {
 		return "unparsable"
 	}
-	if c.Iss != clientID || c.Sub != clientID {
+	if c.Iss != w.p.clientID() || c.Sub != w.p.clientID() {
 		return "issuer-subject"
 	}
 	var aud []string
@@ -1061,8 +1214,11 @@ func (w *world) checkAssertion(f url.Values) string {
 // step = replay the history on a fresh world, then one more operation
 
 func (w *world) apply(op string, judge bool) (engine.Result, string, bool) {
-	if op == "start" {
-		r, last := w.start(judge)
+	if op == "start" || strings.HasPrefix(op, "start:") {
+		r, last := w.start(op, judge)
+		if r.Rule == "internal" && last == "" {
+			return r, last, false
+		}
 		return r, last, true
 	}
 	o, ok := parseCb(op)
@@ -1205,6 +1361,15 @@ func TestCheck(t *testing.T) {
 			MaxDepth:  p.depth,
 			MaxStates: 200000,
 		})
+	}
+	// configured identifiers that do not survive normalisation x constructor x login request x callback method (E1, ident_test.go)
+	c.Assume(
+		"part ident: the callback request is always sent to the RP's callback route https://rp.example/auth/callback, whatever redirect URI is configured; a constructor that refuses an unusual configuration is Either (the usual configuration must be accepted)",
+		"token requests: a redirect_uri / client_id / scope field, or a Basic authorization header, that a token request carries must name the configured value (Basic user name: raw or form-encoded as RFC 6749 2.3.1 asks); absent fields are not judged",
+		"callbacks over PUT / HEAD / POST-with-query and login requests over POST / HEAD need not be served (Either); if they are, every 'only if' of the statement applies",
+	)
+	if (only == "" || only == "ident") && (replayPart == "" || replayPart == "ident") {
+		identPart(c)
 	}
 	// overlapping requests of several browsers on the one shared RP (E3 schedule exploration, conc_test.go)
 	c.Assume("part conc: requests are interleaved at the hooked operations (state function, URLParamOpt callbacks, ResponseWriter methods, the HTTP client's RoundTrip, the application callback); handler code between two hooks runs atomically; all orders of hooked operations up to the stated preemption bound are explored")
